@@ -4,4 +4,5 @@ CONSTANTS
   MaxFields = 2
   Later = {"tx"}
   IndDims = {"perms", "acro", "fields", "kids"}
+  OthCfgs = {"none", "mix"}
 INVARIANTS KeepDisjoint NoSigNoPerms FlagsDoNotSign Emit
